@@ -1,9 +1,11 @@
 //! Ordered-set model standing in for std's BTreeSet inside Kani overlays of sophia_inmem
-//! (DESIGN.md 2.1 item 3): a sorted fixed-capacity array with the API surface the stores use.
+//! (DESIGN.md 2.1 item 3): a sorted fixed-capacity array of index tuples with the API surface the
+//! stores use (new/insert/remove/contains/iter/range, clonable iterators).
 //! The C01/C16 claims are "sophia's index logic is correct given a correct ordered set".
 #![allow(dead_code)]
 use std::ops::{Bound, RangeBounds};
 
+/// capacity; the overlay builder substitutes the value per harness family (default 4)
 pub const CAP: usize = 4;
 
 #[derive(Clone, Copy, Debug)]
@@ -18,7 +20,24 @@ impl<T: Copy> Default for BTreeSet<T> {
     }
 }
 
-impl<T: Ord + Copy> BTreeSet<T> {
+/// lexicographic comparison of index tuples, written as an explicit loop (the derived array Ord goes
+/// through slice comparison / memcmp specialisations that are needlessly expensive for CBMC)
+#[inline]
+fn cmp<I: Ord + Copy, const N: usize>(a: &[I; N], b: &[I; N]) -> std::cmp::Ordering {
+    let mut k = 0;
+    while k < N {
+        if a[k] < b[k] {
+            return std::cmp::Ordering::Less;
+        }
+        if a[k] > b[k] {
+            return std::cmp::Ordering::Greater;
+        }
+        k += 1;
+    }
+    std::cmp::Ordering::Equal
+}
+
+impl<I: Ord + Copy, const N: usize> BTreeSet<[I; N]> {
     pub fn new() -> Self {
         BTreeSet { items: [None; CAP], len: 0 }
     }
@@ -28,14 +47,14 @@ impl<T: Ord + Copy> BTreeSet<T> {
     }
 
     /// index of the first element >= v (or len)
-    fn lower(&self, v: &T) -> usize {
+    fn lower(&self, v: &[I; N]) -> usize {
         let mut i = 0;
         while i < CAP {
             if i >= self.len {
                 return i;
             }
             match &self.items[i] {
-                Some(x) if x < v => {}
+                Some(x) if cmp(x, v) == std::cmp::Ordering::Less => {}
                 _ => return i,
             }
             i += 1;
@@ -43,14 +62,18 @@ impl<T: Ord + Copy> BTreeSet<T> {
         i
     }
 
-    pub fn contains(&self, v: &T) -> bool {
-        let i = self.lower(v);
-        i < self.len && matches!(&self.items[i], Some(x) if x == v)
+    fn at_eq(&self, i: usize, v: &[I; N]) -> bool {
+        i < self.len && i < CAP && matches!(&self.items[i], Some(x) if cmp(x, v) == std::cmp::Ordering::Equal)
     }
 
-    pub fn insert(&mut self, v: T) -> bool {
+    pub fn contains(&self, v: &[I; N]) -> bool {
+        let i = self.lower(v);
+        self.at_eq(i, v)
+    }
+
+    pub fn insert(&mut self, v: [I; N]) -> bool {
         let i = self.lower(&v);
-        if i < self.len && matches!(&self.items[i], Some(x) if *x == v) {
+        if self.at_eq(i, &v) {
             return false;
         }
         assert!(self.len < CAP, "ordered-set model capacity exceeded (harness bound)");
@@ -64,9 +87,9 @@ impl<T: Ord + Copy> BTreeSet<T> {
         true
     }
 
-    pub fn remove(&mut self, v: &T) -> bool {
+    pub fn remove(&mut self, v: &[I; N]) -> bool {
         let i = self.lower(v);
-        if !(i < self.len && matches!(&self.items[i], Some(x) if x == v)) {
+        if !self.at_eq(i, v) {
             return false;
         }
         let mut j = i;
@@ -79,28 +102,26 @@ impl<T: Ord + Copy> BTreeSet<T> {
         true
     }
 
-    pub fn iter(&self) -> Iter<'_, T> {
+    pub fn iter(&self) -> Iter<'_, [I; N]> {
         Iter { items: &self.items, pos: 0, end: self.len }
     }
 
-    pub fn range<R: RangeBounds<T>>(&self, r: R) -> Range<'_, T> {
-        let mut start = 0;
-        let mut end = self.len;
-        let mut i = 0;
-        // start = number of elements below the lower bound; end = number of elements not above the upper bound
+    pub fn range<R: RangeBounds<[I; N]>>(&self, r: R) -> Range<'_, [I; N]> {
+        // below = number of elements under the lower bound; upto = number of elements not above the upper bound
         let mut below = 0;
         let mut upto = 0;
+        let mut i = 0;
         while i < CAP {
             if i < self.len {
                 if let Some(x) = &self.items[i] {
                     let lo_ok = match r.start_bound() {
-                        Bound::Included(b) => x >= b,
-                        Bound::Excluded(b) => x > b,
+                        Bound::Included(b) => cmp(x, b) != std::cmp::Ordering::Less,
+                        Bound::Excluded(b) => cmp(x, b) == std::cmp::Ordering::Greater,
                         Bound::Unbounded => true,
                     };
                     let hi_ok = match r.end_bound() {
-                        Bound::Included(b) => x <= b,
-                        Bound::Excluded(b) => x < b,
+                        Bound::Included(b) => cmp(x, b) != std::cmp::Ordering::Greater,
+                        Bound::Excluded(b) => cmp(x, b) == std::cmp::Ordering::Less,
                         Bound::Unbounded => true,
                     };
                     if !lo_ok {
@@ -113,9 +134,8 @@ impl<T: Ord + Copy> BTreeSet<T> {
             }
             i += 1;
         }
-        start = below;
-        end = if upto < below { below } else { upto };
-        Iter { items: &self.items, pos: start, end }
+        let end = if upto < below { below } else { upto };
+        Iter { items: &self.items, pos: below, end }
     }
 }
 
